@@ -722,5 +722,13 @@ theorem einv_step (s : St) (evs : List C20.Ev) (op : Op) (hi : Inv s) (h : EInv 
       all_goals rfl
     have hev : evOf s (.isBoot m hdr) = [.recs (recsOf s)] := by simp [evOf, hst]
     rw [hev, hst]; exact einv_snoc_recs s evs h hi
+  | putConfig m hdr body =>
+    have hst : (step s (.putConfig m hdr body)).1 = s := step_readonly s _ (Or.inr (Or.inl ⟨m, hdr, body, rfl⟩))
+    have hev : evOf s (.putConfig m hdr body) = [.recs (recsOf s)] := by simp [evOf, hst]
+    rw [hev, hst]; exact einv_snoc_recs s evs h hi
+  | tso m hdrs =>
+    have hst : (step s (.tso m hdrs)).1 = s := step_readonly s _ (Or.inr (Or.inr ⟨m, hdrs, rfl⟩))
+    have hev : evOf s (.tso m hdrs) = [.recs (recsOf s)] := by simp [evOf, hst]
+    rw [hev, hst]; exact einv_snoc_recs s evs h hi
 
 end PdModel.Bootstrap
